@@ -324,7 +324,15 @@ func buildMod(seed uint64, m int) (bin []byte, arg, want uint32, hasFn bool) {
 	for j := 1; j <= n; j++ {
 		k, cc := uint32(rng.U64()), uint32(rng.U64())
 		want += arg*k + cc
-		md.Codes = append(md.Codes, c.Code(nil, c.LocalGet(0), c.I32Const(int32(k)), c.B(0x6c), c.I32Const(int32(cc)), c.B(0x6a)))
+		fb := [][]byte{c.LocalGet(0), c.I32Const(int32(k)), c.B(0x6c), c.I32Const(int32(cc)), c.B(0x6a)}
+		if m%3 == 0 { // larger code: a chain of additions
+			for pad := rng.Intn(400); pad > 0; pad-- {
+				pc := uint32(rng.U64())
+				want += pc
+				fb = append(fb, c.I32Const(int32(pc)), c.B(0x6a))
+			}
+		}
+		md.Codes = append(md.Codes, c.Code(nil, fb...))
 		body = append(body, c.LocalGet(0), c.Call(uint32(j)))
 		if j > 1 {
 			body = append(body, c.B(0x6a))
@@ -504,7 +512,7 @@ type Event struct {
 	Kills  []int  `json:"kills,omitempty"`
 }
 
-func fsMode(seed uint64, base string, nmods, nconc int, out *c.Out) {
+func fsMode(seed uint64, base string, nmods, nconc, copies int, out *c.Out) {
 	rng := c.NewRng(seed ^ 0xC13)
 	dirN := 0
 	fresh := func() string {
@@ -543,8 +551,11 @@ func fsMode(seed uint64, base string, nmods, nconc int, out *c.Out) {
 			name string
 			n    int
 		}
-		pts := []pt{{"created", 0}, {"copy", 1}, {"copy", L / 2}, {"copy", L - 1}, {"copy", L}, {"copy", 1 + rng.Intn(L)},
+		pts := []pt{{"created", 0}, {"copy", 1}, {"copy", L / 2}, {"copy", L - 1}, {"copy", L},
 			{"copied", 0}, {"synced", 0}, {"closed", 0}, {"renamed", 0}, {"none", 0}}
+		for i := 0; i < copies; i++ {
+			pts = append(pts, pt{"copy", 1 + rng.Intn(L)})
+		}
 		for _, p := range pts {
 			d := fresh()
 			e := ev("crash")
@@ -673,6 +684,7 @@ func main() {
 	dir := flag.String("dir", "", "fs/child: cache directory (fs: scratch base directory)")
 	mods := flag.Int("mods", 3, "fs: number of modules (module 0 has no function)")
 	conc := flag.Int("conc", 4, "fs: concurrent rounds per module")
+	copies := flag.Int("copies", 1, "fs: extra random crash points inside the copy, per module")
 	mod := flag.Int("mod", 1, "child: module index")
 	startAt := flag.Int64("startat", 0, "child: spin until this UnixNano")
 	fsize := flag.Int64("fsize", -1, "child: RLIMIT_FSIZE (bytes), -1 = none")
@@ -694,7 +706,7 @@ func main() {
 		}
 	case "fs":
 		out := c.NewOut()
-		fsMode(*seed, *dir, *mods, *conc, out)
+		fsMode(*seed, *dir, *mods, *conc, *copies, out)
 		out.Flush()
 	}
 }
